@@ -5,6 +5,8 @@ from harness import simdrv as S
 from harness import simprops as SP
 
 ID = 'C17'
+BRIDGE_IMPORTS = 'From Eudoxia Require Import Model.SchedSrc.\n'
+BRIDGE = [('sched_naive', 'ext_sched_naive = sched_naive_src', 'reflexivity.'), ('sched_starter', 'ext_sched_starter = sched_starter_src', 'reflexivity.')]
 MASK = S.M_DEC | S.M_RES | S.M_POOLS
 ASSUMPTIONS = ['workloads of well-formed pipelines with fresh ids']
 
